@@ -74,6 +74,25 @@ ZOPE_PROJECTS = [
                                       "class X(A, B): pass\nclass Y(B, A): pass\nclass Z(X, Y): pass\nclass W(Z, A): pass\n",
      "zp/g.py": "from zp.h import A, B\nfrom zp import h\nclass E(A, h.B): pass\nclass F(E, B, A): pass\n"},
     {"zp/__init__.py": "", "zp/m.py": "from zope.interface import Interface, implements, classImplements, moduleProvides\nclass IM(Interface):\n    pass\nmoduleProvides(IM)\nclass C:\n    implements(IM)\nclass D:\n    pass\nclassImplements(D, IM)\n"},
+    # declarations replaced by a later one (implementsOnly / classImplementsOnly), given several times, on a class redefined afterwards
+    {"zp/__init__.py": "", "zp/ifaces.py": "from zope.interface import Interface\nclass IA(Interface):\n    'a'\nclass IB(Interface):\n    'b'\nclass IC(IA):\n    'c'\n",
+     "zp/impl.py": "from zope.interface import implementer, implementer_only, classImplementsOnly, classImplements, implements, implementsOnly\nfrom zp.ifaces import IA, IB, IC\n"
+                   "@implementer(IA)\nclass Old:\n    'declared with the decorator, then re-declared'\nclassImplementsOnly(Old, IB)\n"
+                   "@implementer(IA, IB)\nclass Plain:\n    pass\nclassImplements(Plain, IC)\nclassImplements(Plain, IA)\n"
+                   "class Body(Plain):\n    implements(IA)\n    implementsOnly(IC)\n"
+                   "@implementer(IB)\nclass Sub(Old):\n    pass\nclassImplementsOnly(Sub, IA)\nclassImplementsOnly(Sub, IC)\n"
+                   "@implementer(IA)\nclass Twice:\n    pass\nclassImplementsOnly(Twice, IB)\n@implementer(IC)\nclass Twice:\n    'redefined'\n"
+                   "@implementer_only(IB)\n@implementer(IA)\nclass Stacked:\n    pass\n"},
+    # zope things assigned to LOCAL variables (function and method bodies, a function nested in an interface): nothing to document there
+    {"zp/__init__.py": "", "zp/core.py": "from zope.interface.interface import InterfaceClass\nfrom zope.interface import Interface, Attribute, implementer\nfrom zope import schema\n"
+                                         "class MyInterfaceClass(InterfaceClass):\n    'custom'\nITop = MyInterfaceClass('ITop')\n'a module-level interface'\n"
+                                         "def make(name):\n    'factory'\n    ILocal = MyInterfaceClass('ILocal')\n    attr = Attribute('local')\n    field = schema.TextLine(title='t')\n"
+                                         "    class IInner(Interface):\n        x = Attribute('x')\n    @implementer(IInner)\n    class Impl:\n        pass\n    return ILocal\n"
+                                         "class Registry:\n    'keeps interfaces'\n    IMember = MyInterfaceClass('IMember')\n"
+                                         "    def fresh(self):\n        'one more'\n        IFresh = MyInterfaceClass('IFresh')\n        a = Attribute('a')\n        return IFresh\n"
+                                         "class IWith(Interface):\n    def m():\n        ILoc = InterfaceClass('ILoc')\n        b = Attribute('b')\n    c = Attribute('c')\n"
+                                         "if True:\n    ICond = InterfaceClass('ICond')\nfor _ in ():\n    ILoop = MyInterfaceClass('ILoop')\n"
+                                         "async def amake():\n    IAsync = MyInterfaceClass('IAsync')\nlam = lambda: InterfaceClass('ILam')\n"},
 ]
 
 
@@ -342,6 +361,21 @@ def run(ctx: Ctx) -> int:
         if len(b["rec"].events) <= 120:
             traces.append(trace_of(b["rec"]))
             origins.append(origin)
+    # the same packages documented with a --privacy rule that hides part of the objects: what is shown must not change what is related
+    from pydoctor import model as _model
+    hidden_rules = [[(_model.PrivacyClass.HIDDEN, "*.[A-Ma-m_]*")], [(_model.PrivacyClass.HIDDEN, "*.[N-Zn-z]*"), (_model.PrivacyClass.PRIVATE, "*.[A-F]*")]]
+    nopt = 0
+    for p in pk:
+        for rules in hidden_rules:
+            b = P.build_sources(paths=[p], record_states=False, options={"privacy": rules})
+            nopt += 1
+            origin = {"family": "testpackage+privacy", "shape": p.name, "privacy": [[r[0].name, r[1]] for r in rules]}
+            if b["crashed"]:
+                ctx.violation({"invariant": "NoCrash", "origin": origin, "exc": b["crashed"], "key": "privacy-crash:" + b["crashed"][:60]})
+                continue
+            for d in P.registry_invariants(b["rec"].project()) + P.derived_relations(b["system"], b["msgs"]):
+                ctx.violation({"invariant": d.split(":")[0], "detail": d, "origin": origin, "key": f"derived+privacy:{d.split(':')[0]}:{p.name}"})
+    ctx.extra["builds_with_a_privacy_rule"] = nopt
     # zope.interface back-references, including an interface moved by a re-export and named by its old location
     for zi, files in enumerate(ZOPE_PROJECTS):
         d = ctx.scratch / f"zope{zi}"
@@ -353,6 +387,10 @@ def run(ctx: Ctx) -> int:
         origin = {"family": "zope", "shape": f"zope{zi}", "files": files}
         judge_events(ctx, b["rec"].events, origin)
         rel = P.derived_relations(b["system"], b["msgs"])
+        for rules in hidden_rules:
+            bp = P.build_sources(paths=[d / "zp"], record_states=False, options={"privacy": rules})
+            ctx.extra["builds_with_a_privacy_rule"] += 1
+            rel += [x for x in (["NoCrash:" + bp["crashed"]] if bp["crashed"] else P.derived_relations(bp["system"], bp["msgs"])) if x not in rel]
         n_impl = sum(len(getattr(o, "implementedby_directly", []) or []) for o in b["system"].allobjects.values())
         ctx.extra.setdefault("zope_implementedby_edges", 0)
         ctx.extra["zope_implementedby_edges"] += n_impl
@@ -442,6 +480,25 @@ def replay(ctx: Ctx, path: str) -> int:
         for e in real["rec"].events:
             bad += P.registry_invariants(e["s"]) if not e["exc"] else ["NoCrash"]
         bad += P.derived_relations(real["system"], real["msgs"])
+    elif o.get("family") in ("zope", "testpackage", "testpackage+privacy"):
+        from pydoctor import model as _model
+        if o["family"] == "zope":
+            d = ctx.scratch / "zope_replay"
+            for rel, text in o["files"].items():
+                (d / rel).parent.mkdir(parents=True, exist_ok=True)
+                (d / rel).write_text(text)
+            paths = [d / "zp"]
+        else:
+            paths = [p for p in testpackages() if p.name == o["shape"]]
+        variants: List[Any] = [None] if o["family"] != "zope" else [None, [["HIDDEN", "*.[A-Ma-m_]*"]], [["HIDDEN", "*.[N-Zn-z]*"], ["PRIVATE", "*.[A-F]*"]]]
+        if o.get("privacy"):
+            variants = [o["privacy"]]
+        for rules in variants:
+            opts = {"privacy": [(_model.PrivacyClass[k], pat) for k, pat in rules]} if rules else None
+            b = P.build_sources(paths=paths, options=opts)
+            for e in b["rec"].events:
+                bad += P.registry_invariants(e["s"]) if not e["exc"] else ["NoCrash"]
+            bad += ["NoCrash"] if b["crashed"] else P.derived_relations(b["system"], b["msgs"])
     elif "source" in o:
         b = P.build_sources(texts=[("m", o["source"])])
         for e in b["rec"].events:
